@@ -61,8 +61,37 @@ def _split(path):
     return [c for c in path.split('/') if c]
 
 
+class _EventObject:
+    """`handler.event_object()`: a threading.Event without threads."""
+
+    def __init__(self):
+        self._flag = False
+
+    def set(self):
+        self._flag = True
+
+    def clear(self):
+        self._flag = False
+
+    def is_set(self):
+        return self._flag
+
+    def wait(self, timeout=None):
+        return self._flag
+
+
+class _Handler:
+    """`zkclient.handler` as far as TraceLoop uses it."""
+
+    @staticmethod
+    def event_object():
+        return _EventObject()
+
+
 class FakeZk:
-    """The subset of KazooClient / treadmill.zkutils.ZkClient the archiver uses."""
+    """The subset of KazooClient / treadmill.zkutils.ZkClient the archiver and the trace reader use."""
+
+    handler = _Handler()
 
     def __init__(self, salt='', ordered_dirs=()):
         self.salt = str(salt)
@@ -76,6 +105,7 @@ class FakeZk:
         self.log = []              # (kind, path) of every applied write
         self.reads = 0             # number of reads served since `arm_read`
         self.read_fault = None     # index of the read that fails once with a transient kazoo error
+        self.list_order = {}       # path -> the order get_children lists (exactly) these children in
 
     # ---- harness side --------------------------------------------------------------------
     def clone(self):
@@ -147,6 +177,9 @@ class FakeZk:
         node = self._find(path)
         if node is None:
             raise kazoo.exceptions.NoNodeError(path)
+        forced = self.list_order.get(path)
+        if forced is not None and sorted(forced) == sorted(node.children):
+            return list(forced)
         if path in self.ordered_dirs:
             return list(node.children)
         return sorted(node.children, key=lambda n: hashlib.sha1((self.salt + '/' + n).encode()).digest())
@@ -155,6 +188,26 @@ class FakeZk:
         self._read('exists', path)
         node = self._find(path)
         return node.stat() if node is not None else None
+
+    # Watches (trace reader): synchronous and one-shot - the decorated function is called once with the
+    # current state, as kazoo does when the watch is registered; later changes are never delivered
+    # (the reader is run with snapshot=True and returns False from its callbacks anyway).
+    def DataWatch(self, path):             # pylint: disable=invalid-name
+        def decorator(func):
+            self._read('get', path)
+            node = self._find(path)
+            if node is None:
+                func(None, None, None)
+            else:
+                func(node.data, node.stat(), None)
+            return func
+        return decorator
+
+    def ChildrenWatch(self, path):         # pylint: disable=invalid-name
+        def decorator(func):
+            func(self.get_children(path))   # NoNodeError when the node is missing
+            return func
+        return decorator
 
     def get(self, path, watch=None):
         self._read('get', path)
